@@ -4,6 +4,16 @@ NOTES = ("Every check re-compiles coq/theories/Properties/<id>.v (theorems over 
          "implementation. See DESIGN.md. known_findings.json lists recorded defects; replays/ is written only on failure.")
 NOT_APPLICABLE = {}
 CLAIMS = {
+    "C14": {
+        "text": "Theorems (all strings / target lists, closed under the global context): get_path_score equals the declarative 9-class classification (C14_score_spec) "
+                "with find/startswith/endswith given list-level specs; the numeric order is exactly the property's preference order (C14_order, iff); a full path among "
+                "duplicate-free targets always wins; the decision is Chosen iff unique maximiser, Chosen-with-warning iff the integer tie-break singles one out, "
+                "Ambiguous with exactly the list of maximisers, Unknown iff all scores are 0, and nothing else (C14_choice_*); targets are exactly the dotted paths of "
+                "active non-include definitions; process_args maps the arguments in order. Refutations by witness: duplicate path (F13), outsider wins (F20), empty master (F19). "
+                "PARTIAL for value transfer and process_and_fetch = fetch of individually interpreted arguments, which the oracle checks on the implementation.",
+        "note": "Trusted: Coq kernel, extraction, driver, harness, hand-written model of command_line.py + all_definitions. The float tie-break score-level/100 is modelled by "
+                "the integer key 100*score-level, exact for levels 0..99; outside the entry answers 'unmodelled'. Argument parsing, re-rendering and fetch are not in this model.",
+    },
     "C01": {
         "text": "PARTIAL proof + full correspondence. Theorem: the printer's rendering of every quoted word is read back exactly by the tokenizer model in value "
                 "context (any string, any style, any following text). The tree-level round trip (levels 3/2/0, any width >= 40, byte-identical second print) is "
